@@ -431,7 +431,8 @@ def prefixed(o, prefix):
 
 
 def oracle_c13(row, post):
-    """returns list of (clause, classifier_index or None, text). classifier indices: classify_cli order."""
+    """returns list of (clause, classifier_index or None, text). classifier indices: classify_cli order
+    (0 sql prefix, 1 invalid enum fill, 2 pattern without version, 3 version saturated)."""
     o, cfg = row["obs"], row["config"]
     fails = []
     d = o["diff"]
@@ -449,16 +450,21 @@ def oracle_c13(row, post):
             want = [] if not reports else [prefixed(a, cfg.get("prefix", "")) for a in d[1]]
             got = [] if s[0] == "none" else s[2]
             if [list(map(str, (a[0], a[1]))) for a in want] != [list(map(str, (a[0], a[1]))) for a in got]:
-                fails.append(("sql_renders_diff", 1, "sql renders %d action(s) %s, diff lists %d %s" % (
+                fails.append(("sql_renders_diff", 0, "sql renders %d action(s) %s, diff lists %d %s" % (
                     len(got), [a[0] + ":" + ".".join(a[1][:1]) for a in got][:4], len(want), [a[0] + ":" + ".".join(a[1][:1]) for a in want][:4])))
         elif s[0] == "err":
             # (with a prefix, `sql` sees every model table as new: creating them all at once can fail on an FK cycle)
-            fails.append(("sql_renders_diff", 1, "diff succeeds, sql fails before SQL generation"))
+            fails.append(("sql_renders_diff", 0, "diff succeeds, sql fails before SQL generation"))
+        # status: synchronized iff diff finds nothing (no known exception since fix b3fae31)
         if o["status"] == "sync" and reports:
-            fails.append(("status_sync_implies_no_diff", 0, "status says synchronized, diff lists %d change(s): %s" % (len(d[1]), d[1][0][0])))
+            fails.append(("status_sync_iff_no_diff", None, "status says synchronized, diff lists %d change(s): %s" % (len(d[1]), d[1][0][0])))
+        if o["status"] == "differs" and not reports:
+            fails.append(("status_sync_iff_no_diff", None, "status says the schema differs, diff finds nothing"))
+        if o["status"] == "err":
+            fails.append(("status_sync_iff_no_diff", None, "diff succeeds, status fails"))
     # append-only history
     saturated = max(row["versions"] or [0]) == 4294967295
-    over = 4 if saturated else 3
+    over = 3 if saturated else 2
     if o["rev_removed"] or o["rev_changed"]:
         fails.append(("revision_append_only", over, "revision modified existing migration file(s) %s" % (o["rev_changed"] + o["rev_removed"])))
     if len(o["rev_added"]) > 1:
@@ -469,13 +475,13 @@ def oracle_c13(row, post):
         if v != mx + 1 and not (mx == 4294967295 and v == mx):
             fails.append(("revision_append_only", None, "new version %d, previous maximum %d" % (v, mx)))
         if mx == 4294967295:
-            fails.append(("revision_append_only", 4, "version counter saturated: new migration reuses version %d" % v))
+            fails.append(("revision_append_only", 3, "version counter saturated: new migration reuses version %d" % v))
     # the history the tool wrote must stay readable by the tool
     if o["rev"] == "wrote" and post is not None:
         po = post["obs"]
         if po["diff"][0] == "err" and d[0] != "err":
             # an overwritten migration (finding 3) breaks the history as well
-            fails.append(("revision_output_loadable", over if o["rev_changed"] else 2, "after `revision` wrote %s, `diff` exits 1" % o["wrote"]["file"]))
+            fails.append(("revision_output_loadable", over if o["rev_changed"] else 1, "after `revision` wrote %s, `diff` exits 1" % o["wrote"]["file"]))
     # log shows every stored migration
     lg = o["log"]
     if lg[0] == "entries" and sorted(v for v, _ in lg[1]) != sorted(row["versions"]):
@@ -657,13 +663,6 @@ def read_tree(root):
     return out
 
 
-def canon(data):
-    """identity of an entity rendering: the names of a `from datetime import ..` line are a HashSet iteration in the
-    Python exporters (DESIGN D5, judged by C18 and by O-C20 on raw bytes); order-free, so sorted for the comparison"""
-    return re.sub(rb"^from datetime import (.*)$",
-                  lambda m: b"from datetime import " + b", ".join(sorted(m.group(1).split(b", "))), data, flags=re.M)
-
-
 def split_decls(data):
     """(text without its trailing `pub mod x;` lines, [x..])"""
     try:
@@ -679,7 +678,7 @@ def split_decls(data):
 
 
 def entity_key(data):
-    return canon(split_decls(data)[0]).rstrip(b"\n")
+    return split_decls(data)[0].rstrip(b"\n")
 
 
 def content_term(data, entities):
@@ -688,7 +687,7 @@ def content_term(data, entities):
     gd = ["(LDecl %s)" % gs(x) for x in decls]
     if not core.strip():
         return glist(gd)
-    k = canon(core).rstrip(b"\n")
+    k = core.rstrip(b"\n")
     if k in entities:
         return glist(["(LEntity %s)" % gs(entities[k])] + gd)
     return glist(["(LOther %s)" % gs(hashlib.sha1(data).hexdigest()[:12])])
@@ -776,14 +775,12 @@ def oracle_c20(r):
         extra = sorted(set(gen_after) - set(gen_fresh))
         miss = sorted(set(gen_fresh) - set(gen_after))
         diff = sorted(p for p in gen_after if p in gen_fresh and gen_after[p] != gen_fresh[p])
-        only_order = not extra and not miss and all(canon(gen_after[p]) == canon(gen_fresh[p]) for p in diff)
-        fails.append(("export_canonical", 2 if only_order else 1, "after export: stale %s missing %s different %s vs. an export into an empty directory" % (
+        fails.append(("export_canonical", 1, "after export: stale %s missing %s different %s vs. an export into an empty directory" % (
             ["/".join(p) for p in extra][:3], ["/".join(p) for p in miss][:3], ["/".join(p) for p in diff][:3])))
     if r["rc2"] == 0:
         ch = sorted(p for p in set(r["after"]) | set(r["after2"]) if r["after"].get(p, b"?") != r["after2"].get(p, b"?"))
         if ch:
-            only_order = all(r["after"].get(p) is not None and r["after2"].get(p) is not None and canon(r["after"][p]) == canon(r["after2"][p]) for p in ch)
-            fails.append(("export_idempotent", 2 if only_order else 1, "second export changed %s" % ["/".join(p) for p in ch][:3]))
+            fails.append(("export_idempotent", 1, "second export changed %s" % ["/".join(p) for p in ch][:3]))
     outs = [os.path.relpath(os.path.join(r["pdir"], p), r["root"]) for _, p in r["exported"]]
     if len(set(outs)) != r["n_models"] or any(os.path.basename(p) == "mod" + ext for p in outs):
         fails.append(("one_entity_per_model", 1, "%d models, %d distinct entity files %s" % (r["n_models"], len(set(outs)), sorted(set(outs))[:4])))
